@@ -130,6 +130,10 @@ func TestGovcBoundedC18Histories(t *testing.T) {
 			if rng.Intn(6) == 0 {
 				m.stmt.add(gs("leaf", g.fresh("badlen"), gs("type", "string", gs("length", "abc"))))
 			}
+			if rng.Intn(7) == 0 {
+				// a derivation cycle: reported by every run, not by the first one only
+				m.stmt.add(gs("identity", fmt.Sprintf("cyca%d", i), gs("base", fmt.Sprintf("cycb%d", i))), gs("identity", fmt.Sprintf("cycb%d", i), gs("base", fmt.Sprintf("cyca%d", i))))
+			}
 		}
 		// a few augments into other modules
 		for a := 0; a < rng.Intn(3); a++ {
